@@ -172,7 +172,12 @@ func genConns(rng *rand.Rand, p *proxyCfg, thorough bool, passthrough bool) {
 			k = 4
 		}
 	}
-	scripts := []string{"duplex", "duplex", "upclose", "downclose", "abort", "half", "idle", "zero"}
+	// sometimes many small simultaneous connections on one proxy (pool and dispatch under pressure)
+	swarm := !limited && !p.Serial && rng.Intn(6) == 0
+	if swarm {
+		k = 16 + rng.Intn(21)
+	}
+	scripts := []string{"duplex", "duplex", "upclose", "downclose", "abort", "half", "idle", "zero", "zero"}
 	p.Conns = nil
 	for i := 0; i < k; i++ {
 		c := connCfg{
@@ -210,6 +215,12 @@ func genConns(rng *rand.Rand, p *proxyCfg, thorough bool, passthrough bool) {
 			return n
 		}
 		c.NUp, c.NDown = pick(), pick()
+		if swarm {
+			c.NUp, c.NDown = rng.Int63n(2048), rng.Int63n(2048)
+			if c.Script == "abort" {
+				c.Script = "duplex"
+			}
+		}
 		if limited {
 			share := budget / int64(k)
 			c.NUp = rng.Int63n(share + 1)
